@@ -32,6 +32,16 @@ CLAIMED = {
              "call, intercepted send, peer read and callback is validated by TLC against ByteStream.",
         ref="5/C13", technique="TLA+ refinement model checking (TLC) + state-graph replay over scripted OS shim + TLC trace validation",
         note="Trusts TLC, the OS shim (send outcomes W/F/P k/E/Z; real socketpair), the stream numbering of the harness; write sizes <= 40, <= 2 clients."),
+    "C14": dict(
+        text="TLC model-checks RunLoopImpl.tla (timer multimap with re-queue-before-callback, removal search, creation/removal "
+             "inside callbacks, coincident due times of 5 timers) for refinement of LoopAbs.tla (activation only when due, in due "
+             "order, once per interval, never after remove; callbacks only for live, registered clients; onClosed after a failed "
+             "read/write; run returns only on interrupt); every edge of those graphs, the client behaviours of ClientWriteImpl and "
+             "seeded random histories (timers, clients, interrupts, nested operations in callbacks) run on the real Server over the "
+             "OS shim with a virtual clock; every activation, callback, poll and return of run() is validated by TLC against LoopAbs. "
+             "Interrupt from another thread racing with run() is explored separately with the cooperative scheduler (see DESIGN 5/C14).",
+        ref="5/C14", technique="TLA+ refinement model checking (TLC) + state-graph replay over OS shim with virtual clock + TLC trace validation",
+        note="Trusts TLC, the OS shim (filters real epoll readiness, virtual CLOCK_MONOTONIC), the callback action queue of the harness; <= 6 timers, <= 3 clients; listener/establisher sockets not yet driven."),
 }
 
 PENDING_REASON = "check not built yet in this revision of /verif (planned: see DESIGN.md section 5); not claimed until its machinery runs"
